@@ -416,7 +416,6 @@ func ruleC12Determinism(c *Ctx) {
 	}
 }
 
-
 // derivesFromIteration: v is computed from the key or value of the map iteration nx (through
 // boxing, variadic packing, closures' bindings, calls and phis).
 func derivesFromIteration(v ssa.Value, nx *ssa.Next, d int) bool {
@@ -483,7 +482,6 @@ func derivesFromIteration(v ssa.Value, nx *ssa.Next, d int) bool {
 	return false
 }
 
-
 // isIterationIndependentClosure: v is the variadic pack of exactly one closure whose bindings do
 // not derive from the iteration nx.
 func isIterationIndependentClosure(v ssa.Value, nx *ssa.Next) bool {
@@ -509,7 +507,6 @@ func isIterationIndependentClosure(v ssa.Value, nx *ssa.Next) bool {
 	}
 	return !derivesFromIteration(mc, nx, 0)
 }
-
 
 // leadsOnlyToErrorReturn: every path from b ends in a return whose last result is a non-nil error
 // (leaving a loop that way is a failure, not a `break`).
@@ -842,7 +839,6 @@ func ruleC12MarkerValue(c *Ctx) {
 	}
 	c.Check(!bad, "c12.marker-value", "BackwardNavigation/<-", pos, "the value under `<-` is plain data", fmt.Sprintf("`<-` evaluates to query.data, which can be the CTE registry holding lazy thunks (%s) or an enclosing scoped row that carries `<-` itself (%s): selecting `<-` as a column hands that out", registry, nested))
 }
-
 
 // valueOfSanitisesDocuments: ValueOf calls PlainDocument on the value read by ExecReader.
 func (c *Ctx) valueOfSanitisesDocuments() bool {
